@@ -351,6 +351,29 @@ def c02_5(ctx):
             ctx.count(1)
             if not src or not (isinstance(src[0].value, ast.Call) and call_name(src[0].value) == '_listby' and U(src[0].value.func.value) == side):
                 ctx.fail(fn, src[0] if src else fn.node, '%s is not the grouped key list of %s' % (nm, side))
+    # shortcuts around the merge loop ("the key ranges do not overlap, nothing to merge"): two EQUAL keys always have something to merge, so
+    # a test on cmp(key, key) that leaves the function may not put outcome 0 together with an ordered outcome (`!= 1`, `<= 0`, `>= 0` ...)
+    import operator as _op
+    OPS = {ast.Eq: _op.eq, ast.NotEq: _op.ne, ast.Lt: _op.lt, ast.LtE: _op.le, ast.Gt: _op.gt, ast.GtE: _op.ge}
+    for name, (fn, loop, tab, lcur, rcur) in tabs.items():
+        inside = {id(n) for n in ast.walk(loop)}
+        ctx.count(1, fn.where())
+        for n in body_nodes(fn.node):
+            if not isinstance(n, ast.If) or id(n) in inside or not any(isinstance(x, ast.Return) for b in n.body for x in ast.walk(b)):
+                continue
+            for c in ast.walk(n.test):
+                if isinstance(c, ast.Compare) and len(c.ops) == 1 and type(c.ops[0]) in OPS and isinstance(c.left, ast.Call) and call_name(c.left) == 'cmp' \
+                        and len(c.left.args) == 2 and all(isinstance(a, ast.Subscript) for a in c.left.args):
+                    k = const(c.comparators[0])
+                    if k is None and isinstance(c.comparators[0], ast.UnaryOp) and isinstance(c.comparators[0].op, ast.USub):
+                        k = -const(c.comparators[0].operand)
+                    if not isinstance(k, int):
+                        continue
+                    ctx.count(1, fn.where(n))
+                    adm = {o for o in (-1, 0, 1) if OPS[type(c.ops[0])](o, k)}
+                    if 0 in adm and len(adm) == 2:
+                        ctx.fail(fn, n, '%s leaves before the merge loop under `%s`, which holds for EQUAL keys as well as for ordered ones: a key that is the last of one table and the first of the other is matched by the join but treated as unmatched here' % (name, U(c)),
+                                 witness='x with keys 1,2 and y with keys 2,3: key 2 is in x.join(y) and must not be in x/y')
     # xor specifics
     fn, loop, tab, lcur, rcur = tabs['xor']
     def appends(st):
